@@ -181,7 +181,10 @@ def r8(fx):
                 bad.append((clr, got))
         yield ob(f'{writer}: integer components 0..255 -> c/255', not bad, fn, got=bad[:3], want=[])
         outs = []
-        for clr, want in (((0.0, 0.5, 1.0), (0.0, 0.5, 1.0)), ((1.5, 0.0, 0.0), 'ValueError'), ((0.2, -0.1, 0.0), 'ValueError')):
+        # ... and an opaque alpha channel (255 or 1.0) is accepted and ignored: the colour stays the RGB colour it is
+        for clr, want in (((0.0, 0.5, 1.0), (0.0, 0.5, 1.0)), ((1.5, 0.0, 0.0), 'ValueError'), ((0.2, -0.1, 0.0), 'ValueError'),
+                          ((1.0, 0.0, 0.0, 1.0), (1.0, 0.0, 0.0)), ((0.0, 0.5, 1.0, 1.0), (0.0, 0.5, 1.0)), ((255, 0, 0, 255), (1.0, 0.0, 0.0)),
+                          ((255, 0, 0, 1.0), (1.0, 0.0, 0.0)), ((1.0, 0.0, 0.0, 0.5), 'ValueError')):
             try:
                 txt, _ = _render(fx, it, writer, 1, clr, None, size=11)
                 if writer == 'write_pdf':
@@ -491,5 +494,5 @@ def r2(fx):
 def r9(fx):
     from . import p11
     for o in p11.r8(fx):
-        if o.key.startswith('SVG') and ("'dark'" in o.key or o.key.startswith('SVG {} ')):
+        if o.key.startswith('SVG') and ("'dark'" in o.key or 'one module of the type' in o.key or 'lineclass' in o.key or o.key.startswith('SVG {} ')):
             yield o
